@@ -649,6 +649,7 @@ func (c *ChannelWriter) createPartition(ctx context.Context, apiEvent *api.Repli
 			zap.String("collection", apiEvent.CollectionInfo.Schema.GetName()), zap.String("partition", util.Base64ProtoObj(apiEvent.PartitionInfo)))
 		return nil
 	}
+	sourceDBName := apiEvent.ReplicateParam.Database
 	dbName, colName := c.mapDBAndCollectionName(apiEvent.ReplicateParam.Database, apiEvent.CollectionInfo.Schema.GetName())
 	apiEvent.ReplicateParam.Database = dbName
 	createParam := &api.CreatePartitionParam{
@@ -660,6 +661,7 @@ func (c *ChannelWriter) createPartition(ctx context.Context, apiEvent *api.Repli
 	err := c.dataHandler.CreatePartition(ctx, createParam)
 	if err != nil {
 		log.Warn("fail to create partition", zap.Any("event", apiEvent), zap.Error(err))
+		apiEvent.ReplicateParam.Database = sourceDBName
 		skip, _ := c.WaitObjReadyForAPIEvent(ctx, apiEvent, true, true, false)
 		if !skip {
 			return err
@@ -692,6 +694,7 @@ func (c *ChannelWriter) dropPartition(ctx context.Context, apiEvent *api.Replica
 	err := c.dataHandler.DropPartition(ctx, dropParam)
 	if err != nil {
 		log.Warn("fail to drop partition", zap.Any("event", apiEvent), zap.Error(err))
+		apiEvent.ReplicateParam.Database = databaseName
 		skip, _ := c.WaitObjReadyForAPIEvent(ctx, apiEvent, true, true, false)
 		if !skip {
 			return err
